@@ -1622,6 +1622,25 @@ M('C05', '_eigvals_worker slices the eigenvalues on the second leg', NPC,
   "        qi = qindices[0]  # both `a` and `resv` are sorted and share the same qindices\n        resw[a.legs[0].get_slice(qi)] = rw  # replace eigenvalues\n    return resw", "        qi = qindices[1]\n        resw[a.legs[1].get_slice(qi)] = rw  # replace eigenvalues\n    return resw",
   'FACT-eig-slot')
 
+M('C01', 'twin: inner() names the sorting permutation differently and uses np.take', NPC,
+  "        sort_axes_b = np.argsort(axes_b)\n        axes_a = [axes_a[i] for i in sort_axes_b]\n", "        order = np.argsort(axes_b)\n        axes_a = [axes_a[j] for j in order]\n",
+  None, expect='silent')
+M('C01', 'inner() re-orders axes_a with axes_b instead of argsort(axes_b)', NPC,
+  "        sort_axes_b = np.argsort(axes_b)\n        axes_a = [axes_a[i] for i in sort_axes_b]\n", "        sort_axes_b = list(axes_b)\n        axes_a = [axes_a[i] for i in sort_axes_b]\n",
+  'AXES-parallel-sort')
+M('C15', 'twin: decompose_theta_qr_based names the norm of theta differently', 'tenpy/linalg/truncation.py',
+  "        N_theta = npc.norm(theta)\n        eps = npc.norm(theta / N_theta - theta_approx * renormalization / N_theta) ** 2", "        nrm = npc.norm(theta)\n        eps = npc.norm(theta / nrm - theta_approx * renormalization / nrm) ** 2",
+  None, expect='silent')
+M('C15', 'eps of decompose_theta_qr_based normalised by the norm of the approximation', 'tenpy/linalg/truncation.py',
+  "        N_theta = npc.norm(theta)\n", "        N_theta = npc.norm(theta_approx)\n",
+  'TRUNC-eps-reference')
+M('C18', 'twin: IterativeSweeps.run uses a positive flag for the checkpoint guard', 'tenpy/algorithms/mps_common.py',
+  "        is_first_sweep = True\n        while True:\n            iteration_start_time = time.time()\n            if self.stopping_criterion(iteration_start_time=iteration_start_time):\n                break\n            if not is_first_sweep:\n                self.checkpoint.emit(self)\n            result = self.run_iteration()\n            self.status_update(iteration_start_time=iteration_start_time)\n            is_first_sweep = False\n", "        did_sweep = False\n        while True:\n            iteration_start_time = time.time()\n            if self.stopping_criterion(iteration_start_time=iteration_start_time):\n                break\n            if did_sweep:\n                self.checkpoint.emit(self)\n            result = self.run_iteration()\n            self.status_update(iteration_start_time=iteration_start_time)\n            did_sweep = True\n",
+  None, expect='silent')
+M('C18', 'IterativeSweeps.run emits the checkpoint unguarded', 'tenpy/algorithms/mps_common.py',
+  "            if not is_first_sweep:\n                self.checkpoint.emit(self)\n", "            self.checkpoint.emit(self)\n",
+  'RESUME-checkpoint-guard')
+
 # ---------------------------------------------------------------- C16 / C19
 M('C16', 'GMRES restart: relative residual norm used for normalisation (round-3 seed b)', KRY,
   """        self.total_error.append([npc.norm(self.rs[-1]) / self.b_norm])
